@@ -15,7 +15,7 @@ sys.path.insert(0, os.path.dirname(os.path.abspath(__file__)))
 from mir2smt import *
 
 Z3 = os.environ.get("VERIF_Z3", "z3-new")
-INTERPRET = ["parse_float", "parse_floating_normal_fast", "full_multiplication"]
+INTERPRET = ["parse_float", "parse_floating_normal_fast", "full_multiplication", "parse_float_fast"]
 
 CVC5 = os.environ.get("VERIF_CVC5", "cvc5")
 STATS = {"cvc5": 0, "z3": 0, "disagree": []}
@@ -194,6 +194,8 @@ def unwrap_float(v):
                 f, neg = f.arg, not neg
             if isinstance(f, F64) and f.kind == "bits":
                 return (neg, f.arg)
+            if isinstance(f, F64) and f.kind in ("rn", "q"):
+                return ("rat", neg, f.arg[0], f.arg[1])
             return "opaque"
         return None
     if isinstance(v, Adt) and v.ty == "Result" and v.variant == "Err":
@@ -302,6 +304,22 @@ def check_exponents(job):
                         res["errors"].append((e, r))
             elif u is None:
                 res["unsupported"].append((e, "return shape %r" % (rv,)))
+            elif u[0] == "rat":
+                # one IEEE operation on exact operands: the result is RN(num/den); it is the right double iff num/den == w * 10^e
+                had_fast = True
+                _, isneg, num, den = u
+                res["decided_returns"] += 1
+                lhs = num if e <= 0 else num
+                eq = "(= %s %s)" % (sx(mul(num, 10 ** (-e)) if e < 0 else num), sx(mul(w, den * (10 ** e if e >= 0 else 1))))
+                bad = "(not (and %s (= %s %s)))" % (eq, neg.s, "true" if isneg else "false")
+                r, _ = solver.query(c.script([bad]))
+                if r == "sat":
+                    vals = concretise(solver, c, w, neg, trunc, [bad], e)
+                    (res["violations"] if vals else res["unrealisable"]).append({"exp10": e, "w": (vals or {}).get(w.s), "neg": (vals or {}).get(neg.s), "kind": "one-operation float path computes another value", "trace": c.trace})
+                elif r == "unknown":
+                    res["unknown"].append((e, "clinger"))
+                elif r != "unsat":
+                    res["errors"].append((e, r))
             else:
                 had_fast = True
                 isneg, raw = u
@@ -353,14 +371,18 @@ def check_exponents(job):
             res["validation"]["runs"] += 1
             for _, rv in couts:
                 u = unwrap_float(rv)
-                if isinstance(u, tuple) and isinstance(u[1], int):
+                if isinstance(u, tuple) and u[0] == "rat" and isinstance(u[2], int):
+                    # the model says: the double nearest to num/den
+                    got = struct.unpack("<Q", struct.pack("<d", float(Fraction(u[2], u[3]))))[0]
+                    u = (u[1], got)
+                if isinstance(u, tuple) and u[0] != "rat" and isinstance(u[1], int):
                     res["validation"]["reached_interpreted"] += 1
                     want = exact_bits(wv, e)
                     if u[1] != want or u[0]:
                         res["validation"]["mismatches"].append({"exp10": e, "w": wv, "neg": False, "kind": "concrete run of the MIR: bits %#x, exact rounding %s" % (u[1], "%#x" % want if want is not None else "not finite")})
         seen_ob = set()
         for ob in ip.obligations:
-            cond = "false" if ob.cond is False else "(not %s)" % bsx(ob.cond)
+            cond = "true" if ob.cond is False else "(not %s)" % bsx(ob.cond)
             key = "%s:%s %s" % (ob.fn, ob.bb, ob.msg)
             ck = canon(ob.ctx.script([cond], only_callee=True)) if ob.ctx.mark is not None else None
             if ck is not None and ck in seen_ob:
@@ -381,6 +403,12 @@ def check_exponents(job):
                     seen_ob.add(ck)
             else:
                 res["errors"].append((e, r))
+        for sctx, cond in ip.inexact:
+            vals = concretise(solver, sctx, w, neg, trunc, [cond], e)
+            if vals:
+                res["violations"].append({"exp10": e, "w": vals.get(w.s), "neg": vals.get(neg.s), "kind": "float operation on an operand that need not be exact (candidate; the native replay decides)"})
+            else:
+                res["unknown"].append((e, "inexact float operation, no witness"))
         for u in ip.unsupported_paths:
             res["unsupported_paths"][u] = res["unsupported_paths"].get(u, 0) + 1
         res["opaque_calls"] |= ip.opaque_calls
